@@ -113,3 +113,29 @@ Theorem C07_receiver_never_decreases : forall w0 w o w',
   end.
 Proof. exact receiver_never_decreases. Qed.
 Print Assumptions C07_receiver_never_decreases.
+
+From HT Require Import World.Observe Proofs.WFProofs Proofs.ConserveProofs Proofs.ConserveHistProofs.
+Theorem C07_history_conserves : forall ops w l y,
+  WF w -> NoDup l -> hist_conservative w ops l y -> sum_bal (run w ops) y l = sum_bal w y l.
+Proof. exact run_conserves. Qed.
+Print Assumptions C07_history_conserves.
+
+Theorem C07_native_never_minted : forall w o d, ~ In (ANative d) (supply_changing w o).
+Proof. exact native_never_supply_changing. Qed.
+Print Assumptions C07_native_never_minted.
+
+Theorem C07_native_total_constant : forall ops w l d,
+  WF w -> NoDup l -> hist_touches_within w ops l ->
+  sum_bal (run w ops) (ANative d) l = sum_bal w (ANative d) l.
+Proof. exact native_total_constant. Qed.
+Print Assumptions C07_native_total_constant.
+
+Theorem C07_native_total_example :
+  outcomes cons_w0 cons_hist = [true; true; true; true; true; true; false] /\
+  sum_bal cons_w0 (ANative 0) (accounts cons_L) = 3 * 1000000000000 + 1000 /\
+  sum_bal (run cons_w0 cons_hist) (ANative 0) (accounts cons_L) = 3 * 1000000000000 + 1000 /\
+  map (bal cons_w0 (ANative 0)) [1000; 1001; 1002; 0; 4] = [1000000000000; 1000000000000; 1000000000000; 1000; 0] /\
+  map (bal (run cons_w0 cons_hist) (ANative 0)) [1000; 1001; 1002; 0; 4] <>
+  map (bal cons_w0 (ANative 0)) [1000; 1001; 1002; 0; 4].
+Proof. exact native_total_example. Qed.
+Print Assumptions C07_native_total_example.
